@@ -270,10 +270,11 @@ func (r *Reliable) send() {
 				r.sender.senderWindow.state = FastRecovery // will switch to AIMD on the next successful ack
 			}
 
-			if r.sender.RTO > maxRTO && len(r.sender.frames) > 0 {
-				logrus.Errorf("REL: RTO exeeded, dropping frame n° %v", r.sender.frames[0].frameNo)
-				r.sender.frames = r.sender.frames[1:]
-				r.sender.RTO = r.sender.RTT
+			if r.sender.RTO > maxRTO {
+				// Keep retransmitting at the maximum interval. Discarding the
+				// oldest frame here would leave a hole that the peer can never
+				// fill, so nothing written after it could ever be read.
+				r.sender.RTO = maxRTO
 			}
 
 			r.sender.resetRetransmitTicker()
